@@ -14,6 +14,7 @@ CONSTANTS MaxAge,     \* proposals older than this (strictly) are dropped
           MaxClock,   \* bound on the clock (state constraint of the model only)
           MaxDepth,   \* bound on history length
           XG,         \* exclusion bounds range over -XG..0 and 0..XG
+          ExclInside, \* restrict system bounds to exclusion zone inside inclusion bounds
           HPref, HLo, HHi,  \* alphabet of proposals in "history" mode (subsets of OptGrid)
           Mode        \* "sim": like history, full alphabet, emit only full-length histories
                       \* "states": every bucket/bounds as an initial state, no steps
@@ -29,8 +30,10 @@ VARIABLES bucket,   \* actor -> proposal [pref, lo, hi, live, t]
 vars == <<bucket, created, sys, clock, memo, h>>
 View == <<bucket, created, sys, clock, memo>>
 
+\* C03 quantifies over every system bounds with lower <= 0 <= upper and an exclusion zone containing 0;
+\* the zone need not lie inside the inclusion bounds (ExclInside = TRUE restricts to that case)
 SysSet == {s \in [has : BOOLEAN, lo : -G..0, hi : 0..G, xlo : -XG..0, xhi : 0..XG] :
-             /\ (s.has => s.lo <= s.xlo /\ s.xhi <= s.hi)
+             /\ ((s.has /\ ExclInside) => s.lo <= s.xlo /\ s.xhi <= s.hi)
              /\ (~s.has => s.lo = 0 /\ s.hi = 0)}
 PropSet == {q \in [pref : OptGrid, lo : OptGrid, hi : OptGrid, live : {TRUE}, t : {0}] :
               (q.lo # None /\ q.hi # None) => q.lo <= q.hi}
@@ -135,7 +138,7 @@ ReportedRangeIsHonoured ==
     \A a \in Actors, x \in Grid :
        LET p2 == WithOnlyPref(bucket, a, x)
            b == StatusBounds(bucket, sys, Prio[a])
-       IN (sys.has /\ ConflictFree(p2, sys, a)) =>
+       IN (sys.has /\ ConflictFree(p2, sys, a) /\ ~ZeroUndetermined(x, sys)) =>
              (InReported(x, b, sys) <=> Target(p2, sys) = x)
 
 \* adjust_to_bounds returns x itself exactly for the values that are adopted unchanged,
@@ -144,7 +147,7 @@ AdjustToBoundsAgrees ==
     \A a \in Actors, x \in Grid :
        LET b == StatusBounds(bucket, sys, Prio[a])
            c == AdjustToBounds(x, b, sys)
-       IN sys.has =>
+       IN (sys.has /\ ~ZeroUndetermined(x, sys)) =>
             /\ (InReported(x, b, sys) <=> c = <<x, x>>)
             /\ \A j \in 1..2 : (c[j] # None /\ b[1] <= b[2]) => InReported(c[j], b, sys)
 
@@ -154,6 +157,6 @@ EmptyProposalIsNoProposal ==
        (bucket[a].live /\ bucket[a].pref = None /\ bucket[a].lo = None /\ bucket[a].hi = None) =>
           LET p2 == [bucket EXCEPT ![a] = NoProp] IN
           /\ Target(p2, sys) = T
-          /\ \A k \in Actors : StatusBounds(p2, sys, Prio[k]) = StatusBounds(bucket, sys, Prio[k])
+          /\ \A k \in Actors : ReportedSet(StatusBounds(p2, sys, Prio[k]), sys) = ReportedSet(StatusBounds(bucket, sys, Prio[k]), sys)
 
 =============================================================================
